@@ -180,6 +180,8 @@ def generate(rs: int, tier: str, index: int) -> dict:
                       "extra_op": ch.below(6), "reach": _reach(ch.sub("r")), "other_options": _other(ch.sub("oo"))})
         if ch.sub("abort").chance(0.15):
             steps[-1]["abort_first"] = ch.sub("abort").below(100000)
+        if ch.sub("scribble").chance(0.12):
+            steps[-1]["scribble"] = True
         if ch.sub("busy").chance(0.1):
             steps[-1]["interleave"] = ch.sub("busy").below(100000)
         if ch.sub("thread").chance(0.12):
@@ -351,6 +353,19 @@ class Runner:
             return
         if step.get("same_object") and not step.get("rewrite"):
             b = a
+        if step.get("scribble"):
+            # an earlier caller edited the arrays the accessors handed out (computed copies), also those of another
+            # polynomial with the same terms
+            for x in [a, b] + ([a * 1] if isinstance(a, numpoly.ndpoly) else []):
+                if isinstance(x, numpoly.ndpoly) and x.size:
+                    e = x.exponents
+                    if e.flags.writeable:
+                        e[...] = e[:, ::-1] * 2 + 1
+                    for c in x.coefficients:
+                        arr = numpy.asarray(c)
+                        if arr.flags.writeable and arr.size:
+                            arr[...] = 7
+            self.bump("probe:accessor_results_scribbled")
         left, right = (b, a) if step.get("swap") else (a, b)
         ref_a, ref_b = a, b
         if step.get("rewrite"):
@@ -596,7 +611,7 @@ def simplify(plan: dict):
         if step["k"] == "pair":
             if step.get("rewrite"):
                 yield dict(plan, steps=[{k: v for k, v in step.items() if k != "rewrite"}])
-            for key in ("abort_first", "interleave", "in_thread", "same_object"):
+            for key in ("abort_first", "interleave", "in_thread", "same_object", "scribble"):
                 if step.get(key) is not None and step.get(key) is not False:
                     yield dict(plan, steps=[{k: v for k, v in step.items() if k != key}])
             for key in ("a", "b"):
